@@ -31,19 +31,16 @@ RelOK ==
   /\ Check(Ev.ne = ~e, "ne")
   /\ Check(e => Ev.hq, "hash")                                \* equal => same hash
   /\ Check(~SameKind(x, y) => ~e, "cross-kind")
-  /\ Ev.ord =>                                                \* C07 (same kind only)
-       /\ Check(SameKind(x, y), "ord-on-different-kinds")
+  /\ Ev.ord /\ Stated(x, y) =>                 \* C07: one kind, order named by the statement
        /\ Check(B2N(Ev.lt) + B2N(Ev.eq) + B2N(Ev.gt) = 1, "trichotomy")
        /\ Check(Ev.le = (Ev.lt \/ Ev.eq), "le")
        /\ Check(Ev.ge = (Ev.gt \/ Ev.eq), "ge")
-       /\ Check(Ev.cmp = (IF Ev.lt THEN -1 ELSE IF Ev.gt THEN 1 ELSE 0), "compare-sign")
-       /\ Stated(x, y) =>
-            /\ Check(Ev.lt = Less(x, y), "lt")
-            /\ Check(Ev.gt = Less(y, x), "gt")
-            /\ Check(Ev.cmp = Compare(x, y), "compare")
-            \* min / max returned the first (1) or the second (2) argument
-            /\ Check(Ev.mn \in {1, 2} /\ (IF Ev.mn = 1 THEN ~Less(y, x) ELSE ~Less(x, y)), "min")
-            /\ Check(Ev.mx \in {1, 2} /\ (IF Ev.mx = 1 THEN ~Less(x, y) ELSE ~Less(y, x)), "max")
+       /\ Check(Ev.lt = Less(x, y), "lt")
+       /\ Check(Ev.gt = Less(y, x), "gt")
+       /\ Check(Ev.cmp = Compare(x, y), "compare")
+       \* min / max returned the first (1) or the second (2) argument
+       /\ Check(Ev.mn \in {1, 2} /\ (IF Ev.mn = 1 THEN ~Less(y, x) ELSE ~Less(x, y)), "min")
+       /\ Check(Ev.mx \in {1, 2} /\ (IF Ev.mx = 1 THEN ~Less(x, y) ELSE ~Less(y, x)), "max")
 
 (* tri: what the implementation reported on the three pairs of a same-kind
    triple; the laws on the observations themselves *)
@@ -52,13 +49,12 @@ TriOK ==
   /\ Check(Ev.eab /\ Ev.ebc => Ev.eac, "eq-transitive")
   /\ Check(Ev.eab = Equal(Ev.a, Ev.b) /\ Ev.ebc = Equal(Ev.b, Ev.c)
            /\ Ev.eac = Equal(Ev.a, Ev.c), "eq")
-  /\ Ev.ord =>                              \* order observations were made (one kind)
+  /\ Ev.ord /\ Stated(Ev.a, Ev.b) /\ Stated(Ev.b, Ev.c) /\ Stated(Ev.a, Ev.c) =>
        /\ Check(Ev.ab /\ Ev.bc => Ev.ac, "lt-transitive")
        /\ Check(Ev.eab => (Ev.ac = Ev.bc), "lt-respects-eq")
        /\ Check(~(Ev.ab /\ Ev.ba), "asymmetric")
-       /\ Stated(Ev.a, Ev.b) /\ Stated(Ev.b, Ev.c) /\ Stated(Ev.a, Ev.c) =>
-            Check(Ev.ab = Less(Ev.a, Ev.b) /\ Ev.bc = Less(Ev.b, Ev.c)
-                  /\ Ev.ac = Less(Ev.a, Ev.c) /\ Ev.ba = Less(Ev.b, Ev.a), "lt")
+       /\ Check(Ev.ab = Less(Ev.a, Ev.b) /\ Ev.bc = Less(Ev.b, Ev.c)
+                /\ Ev.ac = Less(Ev.a, Ev.c) /\ Ev.ba = Less(Ev.b, Ev.a), "lt")
 
 (* sort: input, output and the permutation p with out[k] = inp[p[k]] that the
    harness read off the element identities; m: "id" | "key" | "idrev" | "keyrev" *)
@@ -70,11 +66,13 @@ SortOK ==
   /\ Check(/\ \A k \in 1..n : Ev.p[k] \in 1..n
            /\ \A k \in 1..n, h \in 1..n : k # h => Ev.p[k] # Ev.p[h]
            /\ \A k \in 1..n : Ev.out[k] = Ev.inp[Ev.p[k]], "sort-permutation")
-  /\ Check(\A k \in 1..(n - 1) :
-             Cmp(Ev.m, KeyOf(Ev.m, Ev.out[k]), KeyOf(Ev.m, Ev.out[k + 1])) <= 0, "sort-ordered")
-  /\ Check(\A k \in 1..(n - 1) :
-             Cmp(Ev.m, KeyOf(Ev.m, Ev.out[k]), KeyOf(Ev.m, Ev.out[k + 1])) = 0
-               => Ev.p[k] < Ev.p[k + 1], "sort-stable")
+  \* the order of the keys must be one the statement names
+  /\ (\A k \in 1..n, h \in 1..n : Stated(KeyOf(Ev.m, Ev.inp[k]), KeyOf(Ev.m, Ev.inp[h]))) =>
+       /\ Check(\A k \in 1..(n - 1) :
+                  Cmp(Ev.m, KeyOf(Ev.m, Ev.out[k]), KeyOf(Ev.m, Ev.out[k + 1])) <= 0, "sort-ordered")
+       /\ Check(\A k \in 1..(n - 1) :
+                  Cmp(Ev.m, KeyOf(Ev.m, Ev.out[k]), KeyOf(Ev.m, Ev.out[k + 1])) = 0
+                    => Ev.p[k] < Ev.p[k + 1], "sort-stable")
 
 (* enum: the order in which a set's elements / a map's keys were enumerated *)
 EnumOK ==
@@ -86,11 +84,16 @@ EnumOK ==
 
 (* render: the tokens the real scanner delivered for the text of v, whether
    every construction order gave that text, and what evaluating it gave *)
+Count(s, x) == Cardinality({i \in DOMAIN s : s[i] = x})
+SameBag(s, u) == /\ Len(s) = Len(u)
+                 /\ \A i \in DOMAIN s : Count(s, s[i]) = Count(u, s[i])
 RenderOK ==
   LET v == Ev.v IN
   /\ Check(WF(v), "wf")
   /\ Check(Ev.cons, "text-depends-on-construction-order")
   /\ OrderStated(v) => Check(Ev.toks = Tokens(v), "tokens")
+  \* enumeration order not named by the statement: the same tokens in some order
+  /\ ~OrderStated(v) => Check(SameBag(Ev.toks, Tokens(v)), "tokens-multiset")
   /\ Ev.data =>
        /\ Check(Ev.rtok, "text-does-not-evaluate")
        /\ Ev.rtok => /\ Check(WF(Ev.rt), "wf-rt")
